@@ -15,6 +15,7 @@ import re
 import shutil
 import subprocess
 import sys
+import zlib
 
 sys.path.insert(0, os.path.dirname(os.path.abspath(__file__)))
 from common import *  # noqa
@@ -126,6 +127,26 @@ def go_type(p):
     return SHAPE_FMT[p["shape"]] % base
 
 
+def param_groups(r):
+    """The parameter DECLARATIONS of a route as index ranges [j, k).  Route option "group": consecutive parameters
+    of one Go type are declared together (`tags, labels []string`) - a rendering variant of the same abstract route
+    (Linker.v has a list of parameters, no declarations: the verdict cannot depend on the grouping)."""
+    ps = r["params"]
+    out, j = [], 0
+    while j < len(ps):
+        k = j + 1
+        while r.get("group") and k < len(ps) and go_type(ps[k]) == go_type(ps[j]):
+            k += 1
+        out.append((j, k))
+        j = k
+    return out
+
+
+def groupable(r):
+    ps = r["params"]
+    return any(go_type(ps[j]) == go_type(ps[j + 1]) for j in range(len(ps) - 1))
+
+
 # ------------------------------------------------------------------ rendering with a layout map
 
 def attr_text(a):
@@ -221,12 +242,13 @@ def render_lproject(proj, root, modpath, cfgname="gleece.json"):
         k1 = len(files.get(fi, [])) - 1
         head = ind + "func (c *%s) %s(" % (r["ctl"], r["name"])
         sig = head
-        for j, p in enumerate(r["params"]):
-            if j:
+        for g, (j, k) in enumerate(param_groups(r)):
+            if g:
                 sig += ", "
             c0 = len(sig.encode())
-            sig += "%s %s" % (p["name"], go_type(p))
-            lay["params"].append((c0, len(sig.encode())))
+            sig += "%s %s" % (", ".join(p["name"] for p in r["params"][j:k]), go_type(r["params"][j]))
+            # the names of one declaration share one AST field: each of them has the range of the whole field
+            lay["params"] += [(c0, len(sig.encode()))] * (k - j)
         sig += ")"
         rets = [GO_RET[x] for x in r["rets"]]
         rcols = None
@@ -311,8 +333,11 @@ def coq_alias(al):
 
 
 def coq_route(r, prefix):
-    attrs = coq_list(["(mkLa %s %s %s %s)" % (KIND_COQ[a["k"]], coq_bytes(a["v"]), coq_alias(a.get("alias")),
-                                              coq_bool(a.get("xprop")))
+    # as attr_text: an annotation without a value has no place for a properties object (parsingRegex of
+    # core/annotations/holder.go: `{...}` is only recognised after `(value ,`)
+    attrs = coq_list(["(mkLa %s %s %s %s)" % (KIND_COQ[a["k"]], coq_bytes(a["v"]),
+                                              coq_alias(a.get("alias") if a["v"] != "" else None),
+                                              coq_bool(a.get("xprop") and a["v"] != ""))
                       for a in r["attrs"]])
     params = coq_list(["(mkFp %s %s %s)" % (coq_bytes(p["name"]), p["base"], p["shape"]) for p in r["params"]])
     return "(mkRt %s %s %s %s)" % (coq_bytes(prefix), attrs, params, coq_list(r["rets"]))
@@ -636,10 +661,27 @@ def prop_problem(x, i, how):
     return True
 
 
-def single_perturbations(r, ext=False):
+TWIN_TYPES = [("TPrim", "SSlice"), ("TStruct", "SPlain")]
+
+
+def add_twin(x, i, j, b, sh, k2, where):
+    """In place: parameter j (bound by annotation i) and a new parameter next to it get the type (b, sh) and are
+    declared together; the new one is bound by an annotation of kind k2 written next to annotation i."""
+    p = x["params"][j]
+    if (b, sh) != (p["base"], p["shape"]):
+        p.update(base=b, shape=sh)
+        p.pop("rep", None)
+    tw = dict(copy.deepcopy(p), name=p["name"] + "_t")
+    off = 1 if where == "after" else 0
+    x["params"].insert(j + off, tw)
+    x["attrs"].insert(i + off, {"k": k2, "v": tw["name"], "alias": None})
+    x["group"] = True
+
+
+def single_perturbations(r, ext=False, twin_every=1):
     """All single perturbations of a route: list of (label, new route).  A perturbation of ONE annotation records
-    its index in "at".  ext: also the shapes added for the hidden-route / namesake-of-context / property-warning
-    legs (C18 shares the default list)."""
+    its index in "at".  ext: also the shapes added for the hidden-route / namesake-of-context / property-warning /
+    declared-together legs (C18 shares the default list); twin_every = n: one n-th of the declared-together shapes."""
     out = []
 
     def mk(label, f, at=None):
@@ -651,6 +693,10 @@ def single_perturbations(r, ext=False):
             return                      # not valid Go
         if any(a_.get("xprop") and (a_.get("alias") or {}).get("n") is not None for a_ in x["attrs"]):
             return                      # two property problems on one annotation: Go map order picks the diagnostic
+        for a_ in x["attrs"]:
+            if a_["v"] == "":           # the properties object goes with the value (attr_text writes neither)
+                a_["alias"] = None
+                a_.pop("xprop", None)
         x["pert"] = r["pert"] + [label]
         x["at"] = at
         out.append((label, x))
@@ -726,6 +772,22 @@ def single_perturbations(r, ext=False):
         if rv != r["rets"]:
             mk("rets:%s" % ",".join(rv or ["void"]), lambda x, rv=rv: x.update(rets=list(rv)))
     if ext:
+        # parameters declared together: a twin of a bound parameter (same type, so that the two share one declaration
+        # `a, a_t T`), bound by an annotation of any kind, before or after it; over the parameter's own type and the
+        # types whose admissibility depends on the kind (slice: query/body only; struct: body only)
+        for i, a in enumerate(r["attrs"]):
+            js = [j for j, p in enumerate(r["params"]) if p["name"] == a["v"]]
+            if a["k"] not in PARAM_KINDS or not js:
+                continue
+            own = (r["params"][js[0]]["base"], r["params"][js[0]]["shape"])
+            for (b, sh) in [own] + [t for t in TWIN_TYPES if t != own]:
+                for k2 in PARAM_KINDS:
+                    for where in ("after", "before"):
+                        lab = "twin-%s:%s+%s/%s/%s" % (where, a["k"], k2, b, sh)
+                        if zlib.crc32(("%d %d %s" % (i, len(r["attrs"]), lab)).encode()) % twin_every:
+                            continue            # the quick tier takes a fixed share of the 30 twins per annotation
+                        mk(lab,
+                           lambda x, i=i, j=js[0], b=b, sh=sh, k2=k2, where=where: add_twin(x, i, j, b, sh, k2, where))
         for i, a in enumerate(r["attrs"]):
             mk("add-unknown-property:%s" % a["k"], lambda x, i=i: prop_problem(x, i, "xprop"), at=i)
             mk("add-name-property:%s" % a["k"], lambda x, i=i: prop_problem(x, i, "name"), at=i)
@@ -774,8 +836,9 @@ def decorate_bases(base, rng):
                 p["rep"] = rng.choice(sorted(STRUCT_REPS))
 
 
-def deliberate_routes():
-    """One instance of every recorded class, run on every execution."""
+def deliberate_routes(ext=False):
+    """One instance of every recorded class, run on every execution.  ext: also the routes whose parameters are
+    declared together (C18 shares the default list)."""
     A = lambda k, v, al=None: {"k": k, "v": v, "alias": ({"s": al} if al is not None else None)}
     Pm = lambda n, b="TPrim", sh="SPlain": {"name": n, "base": b, "shape": sh}
     mk = lambda n, pre, attrs, ps, rets, lab: {"name": n, "prefix": pre, "attrs": attrs, "params": ps, "rets": rets,
@@ -805,16 +868,27 @@ def deliberate_routes():
         mk("DNonStrMissing", "/c0", [A("Method", "GET"), A("Route", "/dnm/{id}"), {"k": "Path", "v": "idd", "alias": {"n": 5}}],
            [Pm("id")], ["RError"], "non-string-alias-and-missing-parameter"),
         mk("DVerbLower", "/c0", [A("Method", "get"), A("Route", "/dvl")], [], ["RError"], "lower-case-verb"),
-    ]
+    ] + ([
+        # one declaration, names bound by annotations of different kinds: every NAME is judged by its own kind
+        dict(mk("DGrpSliceHeader", "/c0", [A("Method", "GET"), A("Route", "/dgsh"), A("Query", "tags"), A("Header", "labels")],
+                [Pm("tags", "TPrim", "SSlice"), Pm("labels", "TPrim", "SSlice")], ["RError"], "declared-together"), group=True),
+        dict(mk("DGrpStructQuery", "/c0", [A("Method", "POST"), A("Route", "/dgsq"), A("Body", "payload"), A("Query", "filter")],
+                [Pm("payload", "TStruct"), Pm("filter", "TStruct")], ["RError"], "declared-together"), group=True),
+        dict(mk("DGrpOk", "/c0", [A("Method", "GET"), A("Route", "/dgok/{id}"), A("Path", "id"), A("Query", "name"), A("Header", "trace")],
+                [Pm("id"), Pm("name"), Pm("trace")], ["RPlain", "RError"], "declared-together"), group=True),
+    ] if ext else [])
 
 
 def strip_route(r):
-    return {"name": r["name"], "prefix": r["prefix"],
-            "attrs": [dict({"k": a["k"], "v": a["v"], "alias": a.get("alias")}, **({"xprop": True} if a.get("xprop") else {}))
-                      for a in r["attrs"]],
-            "params": [dict({"name": p["name"], "base": p["base"], "shape": p["shape"], "prim": p.get("prim", 0)},
-                            **({"rep": p["rep"]} if p.get("rep") and p["base"] == "TStruct" else {}))
-                       for p in r["params"]], "rets": list(r["rets"]), "pert": list(r.get("pert", []))}
+    out = {"name": r["name"], "prefix": r["prefix"],
+           "attrs": [dict({"k": a["k"], "v": a["v"], "alias": a.get("alias")}, **({"xprop": True} if a.get("xprop") else {}))
+                     for a in r["attrs"]],
+           "params": [dict({"name": p["name"], "base": p["base"], "shape": p["shape"], "prim": p.get("prim", 0)},
+                           **({"rep": p["rep"]} if p.get("rep") and p["base"] == "TStruct" else {}))
+                      for p in r["params"]], "rets": list(r["rets"]), "pert": list(r.get("pert", []))}
+    if r.get("group") and groupable(r):
+        out["group"] = True             # consecutive parameters of one type are declared together (`a, b T`)
+    return out
 
 
 def rename_unique(routes):
@@ -1102,15 +1176,20 @@ def main():
         decorate_bases(base, rng2)
         routes = [copy.deepcopy(b) for b in base]
         singles = []
+        tw = 3 if a.tier == "quick" else 1
         for b in base:
-            singles += [x for (_, x) in single_perturbations(b, ext=True)]
+            singles += [x for (_, x) in single_perturbations(b, ext=True, twin_every=tw)]
         routes += singles
         for _ in range(ndouble):
             s1 = rng.choice(singles)
-            opts = single_perturbations(s1, ext=True)
+            opts = single_perturbations(s1, ext=True, twin_every=tw)
             routes.append(rng.choice(opts)[1])
         routes += paired_perturbations(singles, rng2, 0.3 if a.tier == "quick" else 1.0)
-        routes += deliberate_routes()
+        routes += deliberate_routes(ext=True)
+        rng3 = random.Random(seed * 7919 + 11)
+        for r_ in routes:                             # any other route that CAN be written with a shared declaration
+            if "group" not in r_ and groupable(r_) and rng3.random() < 0.5:
+                r_["group"] = True
         cf = os.path.join(CORPUS, "C10.json")
         if os.path.exists(cf):
             routes = [dict(x) for x in json.load(open(cf))] + routes
@@ -1253,10 +1332,13 @@ def main():
                 "added/dropped/renamed/non-string/empty/colliding, URL parameters added/dropped/duplicated/renamed, verbs, "
                 "controller prefix parameter, parameters dropped/added/renamed/retyped over 15 type shapes, 11 return "
                 "shapes; @Hidden added first/last; an unknown property key or a `name` property on every annotation; "
-                "parameters of / retyped to a struct that is only called Context, in <module>/context and in types), a "
+                "parameters of / retyped to a struct that is only called Context, in <module>/context and in types; "
+                "a twin of a bound parameter - same type, declared together with it as `a, a_t T`, before or after it, "
+                "bound by an annotation of each of the 5 kinds, over its own type, []prim and a struct), a "
                 "seeded sample of double perturbations, double perturbations aimed at one annotation (a single "
                 "perturbation of it plus a warning-level problem in its properties object) and one deliberate instance "
                 "of every recorded class; well-formed routes carry @Hidden (p=0.4) and use the namesake structs at random; "
+                "any route with consecutive parameters of one Go type is written with shared declarations at p=0.5; "
                 "non-trivial = rejected, warned or ignored by the implementation, distinct by annotations+signature",
         "samples": [{"route": strip_route(routes[i]), "implementation": obs[i], "oracle": rs[i]}
                     for i in (0, len(routes) // 3, len(routes) // 2)] if routes else [],
@@ -1266,6 +1348,7 @@ def main():
                                "predicted_class(0 ignored,1 hard,2 errors,3 clean,4 reduce fails)": predc,
                                "oracle(0 holds,11/12 recorded class,100 out of scope)": oracles,
                                "recorded_class_hits": {CLASS_NAMES.get(k, k): len(v) for k, v in class_hits.items()},
+                               "routes_with_shared_declarations": sum(1 for r in routes if r.get("group") and groupable(r)),
                                "cli_cases": [{"bad": c["bad"], "pre_existing": c["pre"], "exit": c["exit"],
                                               "routes": c["routes_state"], "spec": c["spec_state"]} for c in cli_cases]},
         "unanalysable_projects": notes[:5], "route_conflict_context": dict(STATS),
@@ -1278,6 +1361,9 @@ def main():
         "an unknown property key is never combined with a non-string `name` on one annotation (Go map order decides "
         "which of the two warnings validateAnnotationProperties returns)",
         "diagnostics are compared as multisets of (code, severity) per receiver; messages and ranges belong to C18",
+        "how parameters are grouped into declarations (`a T, b T` / `a, b T`) is a rendering choice (route option "
+        "`group`); the model has a list of parameters only, so its verdict is the same for every grouping",
+        "an annotation without a value carries no properties object (the annotation syntax has no place for one)",
         "the sort of non-path attributes by name in validateNonPathAnnotations only affects diagnostic order",
     ]
     if not os.environ.get("VERIF_KEEP_WORK"):
